@@ -270,6 +270,28 @@ pub fn run(ctx: &mut Ctx) {
             g.divmod("boundary", x, y);
         }
     }
+    // --- the other spellings of an integer that `parse::<i64>` accepts: an explicit `+`, leading zeros ---
+    {
+        let small: Vec<i64> = vec![0, 1, 2, 3, 7, 10, -7, 1i64 << 31, (1i64 << 53) + 1, i64::MAX, i64::MIN + 1];
+        for name in BIN {
+            for &x in &small {
+                for &y in &small {
+                    for style in [1usize, 2] {
+                        g.bin("spelling", name, &str_of_int(x, style), &Opd::I(y));
+                        g.bin("spelling", name, &Opd::I(x), &str_of_int(y, style));
+                        g.bin("spelling", name, &str_of_int(x, style), &str_of_int(y, 3 - style));
+                    }
+                }
+            }
+        }
+        for name in UN {
+            for &x in &small {
+                for style in [1usize, 2] {
+                    g.un("spelling", name, &str_of_int(x, style), &[]);
+                }
+            }
+        }
+    }
     // --- boundary set × unary filters ---
     for name in UN {
         for &x in &b {
